@@ -25,6 +25,7 @@ package syncer
 
 import (
 	"bytes"
+	"context"
 	"errors"
 	"fmt"
 	"io"
@@ -489,6 +490,102 @@ func (c *c05chan) scenarioFollow(dir string, logSize int64, chunkMax int, total 
 	w.Close()
 	feed.Close()
 	c.s.Count("scenario_follow_" + c.bk)
+}
+
+// ------------------------------------------------------------------ scenario (session 5): the source FAILS, the input reconnects
+
+// c05cErrFeed: a source connection that ends with a NON-EOF error (connection reset, i/o
+// timeout - how a source connection usually ends), after everything pushed was taken
+type c05cErrFeed struct{ *c05cFeed }
+
+func (f c05cErrFeed) Read(p []byte) (int, error) {
+	n, err := f.c05cFeed.Read(p)
+	if err != nil {
+		return n, errors.New("read tcp 10.0.0.1:6379: connection reset by peer")
+	}
+	return n, nil
+}
+
+// scenarioSourceError: the stream writer ends because its source fails; the input reconnects and
+// a new writer continues at the same offset (what RedisInput.run does after every connection
+// loss). A reader opened BELOW the boundary - before or after the replacement... here: after it,
+// so nothing invalidates it - must deliver the bytes up to the new writer's end: "a reader opened
+// at X delivers precisely the source bytes from X onward ... and keeps following the live writer".
+func (c *c05chan) scenarioSourceError(dir string, first int, eof bool) {
+	c.trace = nil
+	c.stopBudgets()
+	c.salt = c.r.U64() % 100000
+	c.id = fmt.Sprintf("run%d", c.r.Intn(1000))
+	c.ch = c05cNew(c.bk, dir, 64, 0)
+	defer c.ch.Close()
+	ch := c.ch
+	c.note("new %s logSize=64", c.bk)
+	ch.SetRunId(c.id)
+	start := int64(100)
+	f1 := newC05cFeed()
+	var src io.Reader = c05cErrFeed{f1}
+	if eof {
+		src = f1
+	}
+	w1, err := ch.NewAofWritter(src, start)
+	if err != nil {
+		c.s.Violate("harness", err.Error(), c.replay())
+		return
+	}
+	w1.Start()
+	f1.Push(c05cSeg(c.salt, start, first))
+	end := start + int64(first)
+	if !c.waitRight(end) {
+		c.s.Violate("writer-stalls", fmt.Sprintf("%d bytes pushed at %d are not stored", first, start), c.replay())
+		return
+	}
+	f1.Close()
+	c.note("aofw %d ; append %d ; the source fails (eof=%v)", start, first, eof)
+	ctx, cancel := context.WithCancel(context.Background())
+	bw := c.budget(20 * time.Second)
+	go func() { <-bw.Done(); cancel() }()
+	w1.Wait(ctx)
+	cancel()
+	f2 := newC05cFeed()
+	w2, err := ch.NewAofWritter(f2, end)
+	if err != nil {
+		c.s.Violate("continuing-writer-refused", fmt.Sprintf("NewAofWritter(%d) after the source failed at %d: %v", end, end, err), c.replay())
+		return
+	}
+	w2.Start()
+	defer func() { w2.Close(); f2.Close() }()
+	more := 1 + c.r.Intn(40)
+	f2.Push(c05cSeg(c.salt, end, more))
+	if !c.waitRight(end + int64(more)) {
+		c.s.Violate("writer-stalls", fmt.Sprintf("%d bytes pushed at %d are not stored", more, end), c.replay())
+		return
+	}
+	c.note("aofw %d (reconnect) ; append %d", end, more)
+	from := start + int64(c.r.Intn(first))
+	if !ch.IsValidOffset(Offset{RunId: c.id, Offset: from}) {
+		c.s.Count("note_source_error_offset_invalid")
+		return
+	}
+	rd, rerr := ch.NewReader(Offset{RunId: c.id, Offset: from})
+	if rerr != nil {
+		c.s.Violate("valid-but-unreadable", fmt.Sprintf("offset %d is valid but NewReader fails: %v", from, rerr), c.replay())
+		return
+	}
+	wait := usync.NewWaitCloser(nil)
+	rd.Start(wait)
+	defer func() { rd.Close(); wait.Close(nil) }()
+	want := int(end) + more - int(from)
+	c.note("open %d ; read %d", from, want)
+	got, gerr, returned := c05cRead(rd, want, 10*time.Second)
+	c.checkBytes("reader across a failed source's boundary", from, got)
+	switch {
+	case !returned:
+		c.s.Violate("reader-stalls", fmt.Sprintf("reader opened at %d after the writer was replaced (source failed at %d, new writer appended %d bytes) does not deliver", from, end, more), c.replay())
+	case len(got) < want:
+		c.s.Violate("reader-fails-without-invalidation", fmt.Sprintf("reader opened at %d AFTER the writer was replaced (the source failed at %d, the input reconnected, the new writer appended up to %d; "+
+			"range %d..%d, offset valid) delivered %d of %d bytes and then failed with the DEAD writer's error %q: nothing invalidated this reader", from, end, end+int64(more), start, end+int64(more), len(got), want, fmt.Sprint(gerr)), c.replay())
+	}
+	c.s.Count("scenario_source_error_" + c.bk)
 }
 
 // ------------------------------------------------------------------ scenario 2: > 1 MiB through one pipe with a lagging consumer
@@ -1184,6 +1281,10 @@ func TestVerifC05chan(t *testing.T) {
 	defer s.Close()
 	limit := time.Duration(vfutil.Scale(150, 1200)) * time.Second
 	cur := &c05chan{}
+	// thorough tier: the binary is built with -race; reports of the race runtime become results
+	// (a race between two accesses of the code under test = violation data-race, replay = backend + steps)
+	rl := vfutil.StartRaceLog("C05chan")
+	defer rl.Finish(s, func() map[string]interface{} { return map[string]interface{}{"steps": fmt.Sprint(cur.trace)} })
 	wd := time.AfterFunc(limit, func() {
 		// an infrastructure failure (broken tie), not a violation
 		vfutil.WatchdogExit(s, fmt.Sprintf("the harness did not finish within %v; steps: %v", limit, cur.trace))
@@ -1206,25 +1307,36 @@ func TestVerifC05chan(t *testing.T) {
 		c := &c05chan{s: s, r: r, bk: bk}
 		cur = c
 		for i := 0; i < vfutil.Scale(6, 60); i++ {
+			rl.Mark(fmt.Sprintf("%s/follow#%d seed=%d", bk, i, vfutil.Seed()))
 			logSize := int64(vfutil.Pick(r, []int{64, 256, 1024, 6000}))
 			chunkMax := vfutil.Pick(r, []int{40, 300, 5000, 9000})
 			c.scenarioFollow(t.TempDir(), logSize, chunkMax, vfutil.Pick(r, []int{2000, 20000}))
 		}
+		for i := 0; i < vfutil.Scale(4, 20); i++ {
+			rl.Mark(fmt.Sprintf("%s/source-error#%d seed=%d", bk, i, vfutil.Seed()))
+			c.scenarioSourceError(t.TempDir(), vfutil.Pick(r, []int{10, 48, 49, 120}), i%4 == 3)
+		}
 		for i := 0; i < vfutil.Scale(1, 6); i++ {
+			rl.Mark(fmt.Sprintf("%s/large#%d seed=%d", bk, i, vfutil.Seed()))
 			c.scenarioLarge(t.TempDir())
 		}
 		for i := 0; i < vfutil.Scale(2, 10); i++ {
+			rl.Mark(fmt.Sprintf("%s/concurrent#%d seed=%d", bk, i, vfutil.Seed()))
 			c.scenarioConcurrent(t.TempDir(), time.Duration(vfutil.Scale(700, 3000))*time.Millisecond)
 		}
 		for i := 0; i < vfutil.Scale(8, 60) && c.hangs < 3; i++ {
+			rl.Mark(fmt.Sprintf("%s/invalidate(kind %d)#%d seed=%d", bk, i%4, i, vfutil.Seed()))
 			c.scenarioInvalidate(t.TempDir(), i%4)
 		}
 		for i := 0; i < vfutil.Scale(3, 30) && c.hangs < 3; i++ {
+			rl.Mark(fmt.Sprintf("%s/invalidate-live-snapshot(kind %d)#%d seed=%d", bk, 1+i%3, i, vfutil.Seed()))
 			c.scenarioInvalidateLiveSnapshot(t.TempDir(), 1+i%3)
 		}
+		rl.Mark(fmt.Sprintf("%s/snapshot-race seed=%d", bk, vfutil.Seed()))
 		c.scenarioSnapshotRace(t.TempDir(), vfutil.Scale(300, 3000))
 		c.stopBudgets()
 	}
+	rl.Mark("abandoned-writers")
 	c05cAbandonedWriters(t, s)
 	for _, m := range vfutil.InfraFailures() {
 		t.Errorf("C05chan harness infrastructure (no statement about the cache): %s", m)
